@@ -17,6 +17,7 @@ pub mod lru_file;
 use std::collections::HashMap;
 use std::path::{Path, PathBuf};
 
+use tokio::io::AsyncWriteExt;
 use tracing::{debug, warn};
 
 use lru_file::{
@@ -198,7 +199,20 @@ impl LruManager {
         let data = serialize(&self.header, &self.entries);
         let path = lru_file_path(&self.data_dir, self.generation);
 
-        tokio::fs::write(&path, &data).await.map_err(|e| {
+        // Write to a temporary file, fsync, then rename into place, so that a crash
+        // never leaves a truncated or partially written file under the generation
+        // name (the loader picks the highest generation and would reject it). The
+        // temporary name does not parse as a generation file name.
+        let tmp_path = path.with_extension("lru.tmp");
+        let written = async {
+            let mut file = tokio::fs::File::create(&tmp_path).await?;
+            file.write_all(&data).await?;
+            file.sync_all().await?;
+            drop(file);
+            tokio::fs::rename(&tmp_path, &path).await
+        }
+        .await;
+        written.map_err(|e| {
             crate::StorageError::Cache(format!(
                 "failed to write LRU checkpoint to {}: {e}",
                 path.display()
